@@ -17,15 +17,17 @@ var reDays = regexp.MustCompile("^(-?[0-9]+)d")
 type Duration time.Duration
 
 func (d Duration) marshalInternal() string {
-	negative := false
-	if d < 0 {
-		negative = true
-		d = -d
-	}
+	negative := d < 0
 
 	day := Duration(86400 * time.Second)
 	days := d / day
 	nonDays := d % day
+
+	// negate the parts, not the whole (-d overflows when d is the minimum duration)
+	if negative {
+		days = -days
+		nonDays = -nonDays
+	}
 
 	ret := ""
 	if negative {
